@@ -249,6 +249,7 @@ impl RunCfg {
             arith_next: 0,
             nonfinite: kj.get("nonfinite")?.as_bool()?,
             empty_bias: ku("empty_bias")? as u8,
+            zst_huge: kj.get("zst_huge").and_then(J::as_bool).unwrap_or(false),
         };
         Some(RunCfg {
             prop: u("prop")? as u8,
@@ -283,7 +284,7 @@ impl RunCfg {
             10 => [50, 3, 1, 0, 10, 0, 10, 8, 5, 1, 6, 2, 2, 0],
             11 => [80, 5, 4, 2, 3, 4, 0, 0, 0, 2, 2, 1, 0, 0],
             12 => [80, 8, 1, 0, 6, 0, 1, 1, 0, 2, 2, 1, 0, 0],
-            13 => [85, 3, 1, 0, 1, 0, 1, 0, 0, 2, 2, 1, 3, 0],
+            13 => [85, 3, 1, 1, 1, 0, 1, 0, 0, 2, 2, 1, 3, 0],
             14 => [60, 3, 3, 1, 2, 2, 0, 0, 0, 25, 3, 1, 0, 0],
             16 => [60, 5, 1, 0, 1, 16, 2, 1, 1, 2, 2, 1, 3, 0],
             18 => [75, 8, 2, 1, 3, 0, 3, 2, 2, 2, 2, 1, 3, 0],
@@ -343,6 +344,7 @@ impl RunCfg {
             // JSON cannot carry non-finite floats: a limitation of the format, not of the crate
             knobs.nonfinite = !(caps.serde && w[5] > 0);
         }
+        knobs.zst_huge = caps.zst_huge && rng.coin();
         if prop == 11 && knobs.small_domain == 0 {
             knobs.small_domain = 2 + rng.below(3) as u8;
         }
